@@ -3,6 +3,7 @@ META-TABLE (every character the simple-pattern translator or the regex engine tr
 neutralises it and the uniqueness test sees it) and ESCAPE-INJECTION (the translator does not turn `backslash + c` into a regex *operator* for the
 characters where the target dialect defines one)."""
 import re
+from msa import guards as G
 from msa import pair as P
 from msa import ast as A
 from msa import cfg as C
@@ -62,11 +63,14 @@ def run(res, tier):
     f = fx.fn1(SM + '::SetPattern')
     # position-0 specials: comparisons  str[0] == 'c'
     pos0 = set()
+    # the pattern cursor: a local char pointer initialised from the pattern String (_pattern() / s())
+    patvars = set(v['d'] for v in f.walk() if v['k'] == 'VarDecl' and v['ch'] and v.type().replace(' ', '') == 'constchar*'
+                  and any(x.get('n') == '_pattern' or x.get('d') == f.params[0]['d'] for x in v['ch'][0].walk()))
     for n in f.walk():
-        if n['k'] == 'BinaryOperator' and n.get('op') == '==':
-            l, r = A.strip_casts(n['ch'][0]), A.strip_casts(n['ch'][1])
-            if l['k'] == 'ArraySubscriptExpr' and l['ch'][1].get('v') == 0 and r['k'] == 'CharacterLiteral':
-                pos0.add(chr(r['v']))
+        if n['k'] == 'BinaryOperator' and n.get('op') in ('==', '!='):
+            for (l, op_, r) in A.rel_forms(n, True):
+                if l['k'] == 'ArraySubscriptExpr' and l['ch'][1].get('v') == 0 and r['k'] == 'CharacterLiteral' and A.strip_casts(l['ch'][0]).get('d') in patvars:
+                    pos0.add(chr(r['v']))
     if len(pos0) < 3:
         raise AnalysisBroken('SetPattern: position-0 special cases not found')
     missing = sorted(c for c in pos0 if c not in first and c not in always)
@@ -112,7 +116,8 @@ def run(res, tier):
         if len(a) >= 2:
             x = A.strip_casts(a[1])
             firstarg = x['k'] == 'BinaryOperator' and x.get('op') == '==' and set(A.strip_casts(y).get('d') for y in x['ch']) == set([g.params[0]['d'], next((v['d'] for v in g.walk() if v['k'] == 'VarDecl' and v.get('n') == 's'), None)])
-    bt = any(n['k'] == 'BinaryOperator' and n.get('op') == '==' and A.strip_casts(n['ch'][0])['k'] == 'ArraySubscriptExpr' and n['ch'][0]['ch'][1].get('v') == 0 and A.strip_casts(n['ch'][1]).get('v') == 96 for n in g.walk())
+    bt = any(l['k'] == 'ArraySubscriptExpr' and l['ch'][1].get('v') == 0 and r.get('v') == 96
+             for n in g.walk() if n['k'] == 'BinaryOperator' and n.get('op') in ('==', '!=') for (l, op_, r) in A.rel_forms(n, True))
     res.ob('META-TABLE', g.where(), 'CanWildcardStringMatchMultipleValues uses IsRegexToken(c, c is first) and treats a leading backtick as multi-match', bool(uses) and firstarg and bt, function=g.q,
            key='META-TABLE|%s|consistent' % g.q, message='the can-match-multiple-values test no longer classifies characters with IsRegexToken in the right position class (or ignores the backtick prefix): '
                                                          'the traversal fast path treats a real pattern as a literal')
@@ -131,8 +136,7 @@ def run(res, tier):
     covered = set()
     drops = [c for c in f.walk() if c['k'] == 'CXXMemberCallExpr' and re.search(r'String::(TruncateChars|operator--)$', c.get('q') or '')]
     for d in drops:
-        gs = [(f.nodes[c], t) for (c, t) in C.guards_of_block(f, P.pos_of(f, d)[0])]
-        if not any(A.strip_casts(cn).get('d') == flag and t for (cn, t) in gs):
+        if not any(cn.get('d') == flag and t for (cn, t) in G.atoms_at(f, d)):
             continue
         # the disjunction guarding the drop: collect its atoms from the if statement
         ifs = [a for a in d.ancestors() if a['k'] == 'IfStmt']
@@ -144,8 +148,10 @@ def run(res, tier):
                 a = x.args()
                 if len(a) == 3 and 'v' in a[1] and 'v' in a[2]:
                     covered |= set(chr(v) for v in range(a[1]['v'], a[2]['v'] + 1))
-            if x['k'] == 'BinaryOperator' and x.get('op') == '==' and A.strip_casts(x['ch'][1])['k'] == 'CharacterLiteral':
-                covered.add(chr(x['ch'][1]['v']))
+            if x['k'] == 'BinaryOperator' and x.get('op') == '==':
+                for (l_, op_, r_) in A.rel_forms(x, True):
+                    if r_['k'] == 'CharacterLiteral':
+                        covered.add(chr(r_['v']))
             if x.is_call() and (x.get('q') or '') in ('isalnum', 'isalpha', 'isdigit'):
                 covered |= set('0123456789') if 'alnum' in x['q'] or 'digit' in x['q'] else set()
                 covered |= set(chr(v) for v in list(range(65, 91)) + list(range(97, 123))) if 'al' in x['q'] else set()
@@ -219,7 +225,7 @@ def run(res, tier):
         init = A.strip_casts(v['ch'][0])
         pure = init['k'] in ('UnaryOperator', 'ArraySubscriptExpr') and not any(x['k'] == 'ConditionalOperator' for x in init.walk())
         asg = [n for n in g.walk() if n['k'] == 'BinaryOperator' and n.get('op') == '=' and A.strip_casts(n['ch'][0]).get('d') == v['d']]
-        okg = all(any(A.strip_casts(P.strip_not(g.nodes[c_])[0]).get('d') == em[0]['d'] and (t_ != P.strip_not(g.nodes[c_])[1]) for (c_, t_) in C.guards_of_block(g, P.pos_of(g, a)[0])) for a in asg)
+        okg = all(any(cn_.get('d') == em[0]['d'] and not t_ for (cn_, t_) in G.atoms_at(g, a)) for a in asg)
         res.ob('ESCAPE-PARITY', g.where(v), 'SetPattern: the loop character `%s` is loaded unchanged and rewritten only when escapeMode is false' % v.get('n'), pure and okg, function=g.q,
                key='ESCAPE-PARITY|%s|translate-unescaped-only' % g.q, how='%d rewrite(s), all outside escape mode' % len(asg),
                message='StringMatcher::SetPattern rewrites the pattern character before (or regardless of) the escape test: an escaped comma `\\,` becomes `\\|`, so EscapeRegexTokens("a,b") no '
@@ -238,7 +244,7 @@ def run(res, tier):
     # StringMatcher::Match: every result goes through the negation (single exit that applies the NEGATE flag)
     g = fx.fn1(SM + '::Match', pred=lambda h: h.full and h.file.endswith('StringMatcher.cpp') and any(x['k'] == 'MemberExpr' and x.get('n') == '_ranges' for x in h.walk()))
     rets = [r for r in g.walk() if r['k'] == 'ReturnStmt' and r['ch']]
-    okn = bool(rets) and all(any(x.get('n') == 'STRINGMATCHER_FLAG_NEGATE' for x in r.walk()) or any(x.is_call() and (x.get('q') or '').endswith('::IsNegate') for x in r.walk()) for r in rets)
+    okn = bool(rets) and all(any(x.get('n') == 'STRINGMATCHER_FLAG_NEGATE' or (x.is_call() and (x.get('q') or '').endswith('::IsNegate')) for x in A.walk_through_locals(g, r)) for r in rets)
     res.ob('META-TABLE', g.where(), 'every return of StringMatcher::Match applies the negate flag', okn, how='%d return(s)' % len(rets), function=g.q, key='META-TABLE|%s|negate-on-every-return' % g.q,
            message='StringMatcher::Match has a return that bypasses the negation: for a subject inside one of the numeric ranges `~<5-10>` matches exactly like `<5-10>`')
     sm_state.regex_valid_rule(res, fx)
